@@ -8,7 +8,9 @@ from interp import Interp, Unsupported, Panic
 from solve import Problem
 import specs
 import ringspecs
+import bvspecs
 specs.SPECS.update({k: dict(v, ring=True) for k, v in ringspecs.RINGSPECS.items()})
+specs.SPECS.update({k: dict(v, ring=True) for k, v in bvspecs.BVSPECS.items()})
 
 
 class Recorder:
@@ -47,6 +49,10 @@ class Recorder:
     def native_out(self, polys):
         self.nat_out = list(polys)
 
+    def bveq(self, a, b, what):
+        """BV-domain obligation: two bit-vector terms equal for all inputs"""
+        self.items.append(dict(kind="bveq", a=a, b=b, what=what))
+
     def fzero(self, fpoly, what):
         """ring-level obligation: a polynomial over GF(p) that must be identically zero after normalisation"""
         self.items.append(dict(kind="fzero", fpoly=fpoly, what=what))
@@ -55,6 +61,9 @@ class Recorder:
 def check_spec(name, sp, fns, consts, timeout_ms, cfg="fe64"):
     t0 = time.time()
     res = dict(spec=name, desc=sp.get("desc", ""), obligations=[], status="holds")
+    if sp.get("bv"):
+        import bvdomain
+        bvdomain.reset()        # fresh z3 context: the verdict must not depend on which specifications ran before
     I = Interp(fns, consts, AtomTable())
     I.generic = sp.get("generic", {})
     R = Recorder(I)
@@ -76,7 +85,13 @@ def check_spec(name, sp, fns, consts, timeout_ms, cfg="fe64"):
         if time.time() - t0 > budget:
             res["obligations"].append(dict(what=o["what"], kind=o["kind"], verdict="unknown", note="per-spec time budget exhausted"))
             continue
-        if o["kind"] == "fzero":
+        if o["kind"] == "bveq":
+            import bvdomain
+            t1 = time.time()
+            r, model, how = bvdomain.prove_equal(o["a"], o["b"], timeout_ms)
+            P.time += time.time() - t1
+            P.queries += 1
+        elif o["kind"] == "fzero":
             r, model = P.prove_fzero(o["fpoly"])
         elif o["kind"] in ("range", "overflow"):
             r, model = P.prove_range(o["poly"], o["lo"], o["hi"])
@@ -85,14 +100,19 @@ def check_spec(name, sp, fns, consts, timeout_ms, cfg="fe64"):
         else:
             r, model = P.prove_equal(o["poly"])
         entry = dict(what=o["what"], kind=o["kind"], verdict={"unsat": "proved", "sat": "counterexample", "unknown": "unknown"}.get(r, r))
-        if r == "sat" and o["kind"] == "fzero":
+        if r == "sat" and o["kind"] == "bveq":
+            entry["model"] = model
+            entry["confirmed"] = "bit-vector terms differ on the model's input"
+        elif r == "sat" and o["kind"] == "fzero":
             entry["model"] = model
             entry["confirmed"] = "ring identity fails: non-zero residual polynomial " + str(model.get("residual"))
         elif r == "sat":
             entry["model"] = model
             # confirm on the concrete interpreter (the abstraction may make the model spurious)
             entry["confirmed"] = confirm(sp, fns, consts, model, o)
-        if r == "unknown" or (r == "sat" and not entry.get("confirmed")):
+        if o["kind"] == "bveq" and r != "unsat":
+            pass        # bit-vector obligations: a model is replayed on the terms themselves; unknown stays inconclusive
+        elif r == "unknown" or (r == "sat" and not entry.get("confirmed")):
             # the solver could not settle it (or its model is an artefact of the monomial abstraction): look for a CONCRETE
             # counterexample at corner / random points of the input box. Only ever used to confirm a violation, never to claim "holds".
             cm, why = corner_search(sp, fns, consts, I.tab, o)
@@ -258,7 +278,7 @@ def main():
     if a.json:
         def clean(o):
             if isinstance(o, dict):
-                return {k: clean(v) for k, v in o.items() if k not in ("poly", "fpoly")}
+                return {k: clean(v) for k, v in o.items() if k not in ("poly", "fpoly", "a", "b")}
             if isinstance(o, list):
                 return [clean(x) for x in o]
             return o
